@@ -274,7 +274,7 @@ def apply_x12(items, x):
         for e in it.edits:
             e = copy.copy(e)
             if e.cid in per and per[e.cid] is not None and FRAME in e.text:
-                e.text = e.text.replace(FRAME, FRAME + ' ' + x['frame'] + ' ' + per[e.cid], 1)
+                e.text = e.text.replace(FRAME, FRAME + '\n            ' + x['frame'] + ('\n            ' + per[e.cid] if per[e.cid] else ''), 1)
             if e.kind == 'rep' and 'acc@.len() == it.index@,' in e.text and x.get('inv'):
                 e.text = e.text.replace('acc@.len() == it.index@,', 'acc@.len() == it.index@, ' + x['inv'], 1)
             new.append(e)
